@@ -133,6 +133,7 @@ pub fn get_next_chunk(ptr: usize,buf: &[u8]) -> (usize,u32,Option<Vec<u8>>) {
 fn get_ts_list(addr: Block,kind: &super::DiskKind) -> Result<(Vec<[usize;2]>,usize),DYNERR> {
 	match addr {
 		Block::D13([t,s]) => Ok((vec![[t,s]],256)),
+		Block::DO([_t,s]) if s>=skew::DOS_LSEC_TO_DOS_PSEC.len() => Err(Box::new(super::Error::SectorAccess)),
 		Block::DO([t,s]) => Ok((vec![[t,skew::DOS_LSEC_TO_DOS_PSEC[s]]],256)),
 		Block::PO(block) => {
 			let mut ans = skew::ts_from_prodos_block(block,kind)?;
